@@ -1,0 +1,147 @@
+//go:build verif
+
+// Contracts checked by /verif/govc (comment-only; compiled only with -tags verif).
+//
+// Level 1 of the gadget layer: the sparse-R1CS builder's implementation of frontend.API, verified for an
+// arbitrary assignment w of the wires that satisfies every gate the builder emits (soundness mode: hint
+// outputs are just wires, nothing is known about them). w(builder, vid) is that assignment (ghost state);
+// a frontend.Variable denotes denS(builder, v): Coeff * w(VID) for a term, the constant it converts to
+// otherwise. The clauses mirror the interface contracts of frontend/contracts_verif.go with den := denS.
+package scs
+
+//@ ghost w F
+//@ spec func denT(b *builder, t Term) F = fmul(t.Coeff, w(b, t.VID))
+//@ spec func isTerm(v Variable) bool = typeIs(v, "expr.Term[E]")
+//@ spec func denS(b *builder, v Variable) F = isTerm(v) ? denT(b, as(v, "expr.Term[E]")) : constOf(v)
+//@ spec func gateS(b *builder, c sparseR1C) F = fadd(fadd(fadd(fadd(fmul(c.qL, w(b, c.xa)), fmul(c.qR, w(b, c.xb))), fmul(c.qO, w(b, c.xc))), fmul(c.qM, fmul(w(b, c.xa), w(b, c.xb)))), c.qC)
+//@ spec func wfB(b *builder) bool = b != nil && b.tOne == f1 && b.tMinusOne == fneg(f1)
+
+// ---- builder primitives
+// every emitted gate holds under w (soundness mode)
+//@ contract (*builder).addPlonkConstraint
+//@   trusted "the constraint system records the gate (constraint.SparseR1CS.AddSparseR1C / AddCoeff are external); the solver side of the same gate is property C06"
+//@   pure
+//@   ensures gateS(builder, c) == f0
+//@ contract (*builder).addBoolGate
+//@   trusted "as addPlonkConstraint, for the boolean gate qL*xa + qM*xa*xa == 0"
+//@   pure
+//@   ensures fadd(fmul(c.qL, w(builder, c.xa)), fmul(c.qM, fmul(w(builder, c.xa), w(builder, c.xa)))) == f0
+//@ contract (*builder).newInternalVariable
+//@   pure
+//@   requires wfB(builder)
+//@   ensures result.Coeff == f1
+//@ contract (*builder).NewHint
+//@   trusted "hint outputs are fresh wires with coefficient one (newHint: external calls into the constraint system)"
+//@   pure
+//@   ensures result.1 == nil ==> len(result.0) == nbOutputs && fresh(result.0) && (forall k int :: 0 <= k && k < nbOutputs ==> isTerm(result.0[k]) && as(result.0[k], "expr.Term[E]").Coeff == f1)
+
+// boolean marking: a term may be marked only when the emitted gates force it boolean; the elision of later
+// boolean assertions (IsBoolean) relies on exactly that. The map itself is not modelled.
+//@ contract (*builder).MarkBoolean
+//@   trusted "map insertion; the precondition is the obligation at every call site"
+//@   pure
+//@   requires @deferred isBool(denS(builder, v))
+//@ contract (*builder).IsBoolean
+//@   trusted "map lookup; sound by the precondition of MarkBoolean"
+//@   pure
+//@   ensures result ==> isBool(denS(builder, v))
+
+//@ contract (*builder).constantValue
+//@   props C05 C04
+//@   assigns *builder.cs
+//@   requires builder != nil
+//@   ensures @is-const result.1 == (!isTerm(v) || as(v, "expr.Term[E]").Coeff == f0)
+//@   ensures @value result.1 ==> result.0 == denS(builder, v)
+
+// ---- API operations
+//@ contract (*builder).IsZero
+//@   props C05
+//@   assigns *builder.cs, *builder.mtBooleans
+//@   requires wfB(builder)
+//@   ensures @iszero denS(builder, result) == (denS(builder, i1) == f0 ? f1 : f0)
+
+//@ contract (*builder).AssertIsBoolean
+//@   props C05
+//@   assigns *builder.cs, *builder.mtBooleans
+//@   requires wfB(builder)
+//   x - x*x == 0 forces x into {0,1} (no zero divisors); stated for the denotation of i1 so that the
+//   generator normalises the gate polynomial against it
+//@   lemma @bool-poly fadd(denT(builder, as(i1, "expr.Term[E]")), fneg(fmul(denT(builder, as(i1, "expr.Term[E]")), denT(builder, as(i1, "expr.Term[E]"))))) == f0 ==> isBool(denT(builder, as(i1, "expr.Term[E]")))
+//@   ensures @bool isBool(denS(builder, i1))
+
+//@ contract (*builder).AssertIsEqual
+//@   props C05
+//@   assigns *builder.cs, *builder.mtBooleans
+//@   requires wfB(builder)
+//@   ensures @eq denS(builder, i1) == denS(builder, i2)
+
+// ---- arithmetic. Add / Mul go through the sum/product splitting with gate re-use (splitSum, splitProd,
+// addConstraintExist, mulConstraintExist): ASSUMED here, not yet verified.
+//@ contract (*builder).Add
+//@   trusted "not yet verified: n-ary sum splitting with gate re-use"
+//@   assigns *builder.cs, *builder.mtBooleans
+//@   ensures len(in) == 0 ==> denS(builder, result) == fadd(denS(builder, i1), denS(builder, i2))
+//@   ensures len(in) == 1 ==> denS(builder, result) == fadd(fadd(denS(builder, i1), denS(builder, i2)), denS(builder, in[0]))
+//@ contract (*builder).Sub
+//@   trusted "not yet verified: goes through Add"
+//@   assigns *builder.cs, *builder.mtBooleans
+//@   ensures len(in) == 0 ==> denS(builder, result) == fsub(denS(builder, i1), denS(builder, i2))
+//@ contract (*builder).Mul
+//@   trusted "not yet verified: n-ary product splitting with gate re-use"
+//@   assigns *builder.cs, *builder.mtBooleans
+//@   ensures len(in) == 0 ==> denS(builder, result) == fmul(denS(builder, i1), denS(builder, i2))
+
+//@ contract (*builder).Neg
+//@   props C05 C04
+//@   assigns *builder.cs
+//@   requires wfB(builder)
+//@   ensures @neg denS(builder, result) == fneg(denS(builder, i1))
+
+//@ contract (*builder).mulConstant
+//@   props C05 C04
+//@   assigns *builder.cs
+//@   requires builder != nil
+//@   ensures @scaled result.VID == t.VID && result.Coeff == fmul(t.Coeff, m)
+
+
+
+//@ contract (*builder).Inverse
+//@   props C05
+//@   assigns *builder.cs
+//@   requires wfB(builder)
+//@   ensures @inverse fmul(denS(builder, result), denS(builder, i1)) == f1
+
+
+
+// ---- boolean operations and selection
+
+
+//@ contract (*builder).And
+//@   props C05
+//@   assigns *builder.cs, *builder.mtBooleans
+//@   requires wfB(builder)
+//@   ensures @and isBool(denS(builder, a)) && isBool(denS(builder, b)) && denS(builder, result) == fmul(denS(builder, a), denS(builder, b))
+
+//@ contract (*builder).Select
+//@   props C05
+//@   assigns *builder.cs, *builder.mtBooleans
+//@   requires wfB(builder)
+//   (i1 - i2)*b + i2 over b in {0,1}
+//@   lemma @select-table isBool(denS(builder, b)) ==> fadd(fmul(fsub(denS(builder, i1), denS(builder, i2)), denS(builder, b)), denS(builder, i2)) == (denS(builder, b) == f1 ? denS(builder, i1) : denS(builder, i2))
+//@   ensures @select isBool(denS(builder, b)) && denS(builder, result) == (denS(builder, b) == f1 ? denS(builder, i1) : denS(builder, i2))
+
+
+//@ contract (*builder).AssertIsDifferent
+//@   props C05
+//@   assigns *builder.cs, *builder.mtBooleans
+//@   requires wfB(builder)
+//@   ensures @different denS(builder, i1) != denS(builder, i2)
+
+// debug information only (symbolic stack, printable terms): emits no constraint, writes only what it allocates
+//@ contract (*builder).newDebugInfo
+//@   trusted "debug information only"
+//@   pure
+
+// Not yet under contract in this builder (left to the interface contracts of frontend.API): Xor, Or, Lookup2,
+// Div, DivUnchecked, MulAcc, Cmp, AssertIsLessOrEqual, MustBeLessOrEqCst, AssertIsCrumb, and the n-ary
+// Add / Mul splitting with gate re-use (splitSum, splitProd, addConstraintExist, mulConstraintExist).
